@@ -59,7 +59,7 @@ type ProcContract struct {
 	Subs       map[string]*ProcContract // "go0", "fn1"
 	Parent     *ProcContract
 	Opts       map[string]string
-	GSets      [][2]string
+	GSets      [][3]string // lhs, rhs, exit ("" any, "K" the K-th return statement, "end" falling off the end)
 	File       string
 	Line       int
 }
@@ -401,11 +401,20 @@ func ParseContractFile(path string) (*ContractFile, error) {
 				}
 			case "gset":
 				// ghost code of the body: gset name(x) = expr
+				at := ""
+				if strings.HasPrefix(rest, "ret ") {
+					// gset ret K: lhs = rhs   -- only at the K-th return statement of the body
+					a, b, ok := strings.Cut(strings.TrimPrefix(rest, "ret "), ":")
+					if !ok {
+						return nil, fmt.Errorf("%s:%d: gset ret K: lhs = rhs", path, n)
+					}
+					at, rest = strings.TrimSpace(a), strings.TrimSpace(b)
+				}
 				l, r, ok := strings.Cut(rest, " = ")
 				if !ok {
 					return nil, fmt.Errorf("%s:%d: gset lhs = rhs", path, n)
 				}
-				cur.GSets = append(cur.GSets, [2]string{strings.TrimSpace(l), strings.TrimSpace(r)})
+				cur.GSets = append(cur.GSets, [3]string{strings.TrimSpace(l), strings.TrimSpace(r), at})
 			case "pure":
 				cur.Pure = true
 			case "inline":
